@@ -249,7 +249,7 @@ func (w *srvWorld) checkC08(active0 string) {
 		if end := w.endReportedAt(); end >= 0 && msg.Arrive < end {
 			raced := false
 			for _, c := range w.causes {
-				if (c.Kind == "stopped" || c.Optional) && c.Begin < end && c.Begin < settled {
+				if (c.Kind == "stopped" || c.Optional) && c.Begin < settled {
 					raced = true
 				}
 			}
